@@ -22,7 +22,8 @@ MORE = [('GenSplit.v', 'slisting', 'stemplate',
         ('GenCtl.v', 'clisting', None, 'unsigned char a, b, c, i;'),
         # calls: a comment `function NAME` pins the body of that function instead of a statement of main
         ('GenCall.v', 'flisting', None, CALL_DECL),
-        ('GenTruth.v', 'tlisting', None, 'unsigned char a, b, c; unsigned short s, t, u;')]
+        ('GenTruth.v', 'tlisting', None, 'unsigned char a, b, c; unsigned short s, t, u;'),
+        ('GenPtr.v', 'plisting', None, 'unsigned char a, b, c; unsigned char arr[8]; unsigned char *p, *q;')]
 
 
 def more_listings():
@@ -39,7 +40,7 @@ def more_listings():
             rx = re.compile(r'\(\*\* ([^\n]*?) \*\)\s*\nExample (%s_\d+) : map show \(%s \((.*?)\)\) =\s*\[(.*?)\]\.' % (ex, fun), re.S)
         for m in rx.finditer(open(p).read()):
             lines = re.findall(r'"((?:[^"]|"")*)"', m.group(4))
-            out.append((m.group(2), m.group(1).strip(), m.group(3).strip(), [l.replace('""', '"') for l in lines], decl))
+            out.append((m.group(2), m.group(1).strip().replace('( *', '(*'), m.group(3).strip(), [l.replace('""', '"') for l in lines], decl))
     return out
 
 
